@@ -221,7 +221,7 @@ class Source:
         return start
 
 
-ATTR_DROP = re.compile(r'^\s*#\[(must_use|allow\(|inline|derive\(|derivative\(|serde\(|doc\b|cfg_attr\()')
+ATTR_DROP = re.compile(r'^\s*#\[(must_use|allow\(|inline|derive\(|derivative\(|serde\(|doc\b|cfg_attr\(|error\(|repr\()')
 
 
 def strip_attrs(text):
